@@ -1,3 +1,5 @@
+#include <set>
+
 #include <occa/core/device.hpp>
 #include <occa/core/base.hpp>
 #include <occa/internal/core/device.hpp>
@@ -331,48 +333,71 @@ namespace occa {
   }
 
   hash_t device::applyDependencyHash(const hash_t &kernelHash) const {
-    // Check if the build.json exists to compare dependencies
-    const std::string buildFile = io::hashDir(kernelHash) + kc::buildFile;
-    if (!io::exists(buildFile)) {
-      return kernelHash;
-    }
+    // Follow the chain
+    //   key -> key combined with the current contents of the recorded dependencies
+    // until we reach a key which hasn't been built yet, or whose recorded
+    // dependencies are up to date
+    hash_t currentHash = kernelHash;
+    std::set<hash_t> visitedHashes;
 
-    json buildJson = json::read(buildFile);
-    json dependenciesJson = buildJson["kernel/dependencies"];
-    if (!dependenciesJson.isInitialized()) {
-      return kernelHash;
-    }
-
-    hash_t newKernelHash = kernelHash;
-    bool foundDependencyChanges = false;
-
-    jsonObject dependencyHashes = dependenciesJson.object();
-    jsonObject::iterator it = dependencyHashes.begin();
-    while (it != dependencyHashes.end()) {
-      const std::string &dependency = it->first;
-      const hash_t dependencyHash = hash_t::fromString(it->second);
-
-      if (io::exists(dependency)) {
-        // Check whether the dependency changed
-        hash_t newDependencyHash = hashFile(dependency);
-        newKernelHash ^= newDependencyHash;
-
-        if (dependencyHash != newDependencyHash) {
-          foundDependencyChanges = true;
-        }
-      } else {
-        // Dependency is missing so something changed
-        foundDependencyChanges = true;
+    while (visitedHashes.insert(currentHash).second) {
+      // Check if the build.json exists to compare dependencies
+      const std::string buildFile = io::hashDir(currentHash) + kc::buildFile;
+      if (!io::exists(buildFile)) {
+        return currentHash;
       }
 
-      ++it;
+      json buildJson = json::read(buildFile);
+      json dependenciesJson = buildJson["kernel/dependencies"];
+      if (!dependenciesJson.isInitialized()) {
+        return currentHash;
+      }
+
+      hash_t newKernelHash = currentHash;
+      bool foundDependencyChanges = false;
+
+      jsonObject dependencyHashes = dependenciesJson.object();
+      jsonObject::iterator it = dependencyHashes.begin();
+      while (it != dependencyHashes.end()) {
+        const std::string &dependency = it->first;
+        const hash_t dependencyHash = hash_t::fromString(it->second);
+
+        if (io::exists(dependency)) {
+          // Check whether the dependency changed
+          hash_t newDependencyHash = hashFile(dependency);
+
+          // Chain the name and the contents of the dependency (the object is
+          // ordered by filename).  XOR-ing the content hashes cancelled two
+          // dependencies with equal contents, which sent us back to the same
+          // key forever, and didn't tell apart which file has which contents
+          newKernelHash = occa::hash(
+            newKernelHash.getFullString()
+            + dependency
+            + newDependencyHash.getFullString()
+          );
+
+          if (dependencyHash != newDependencyHash) {
+            foundDependencyChanges = true;
+          }
+        } else {
+          // Dependency is missing so something changed
+          foundDependencyChanges = true;
+        }
+
+        ++it;
+      }
+
+      if (!foundDependencyChanges) {
+        return currentHash;
+      }
+
+      // Check if the new kernel had its dependencies changed
+      currentHash = newKernelHash;
     }
 
-    if (foundDependencyChanges) {
-      // Recursively check if new kernels had their dependencies changed
-      return applyDependencyHash(newKernelHash);
-    }
-    return kernelHash;
+    // We came back to a key we already checked, which takes a hash collision.
+    // Don't loop forever and don't reuse any of the entries
+    return (currentHash ^ hash_t::random());
   }
 
   kernel device::buildKernel(const std::string &filename,
